@@ -1,7 +1,7 @@
 #!/bin/bash
 # runs every check claimed in MANIFEST.json sequentially; usage: tools/runall.sh [quick|thorough] [seed]
 tier=${1:-quick}; seed=${2:-1}
-cd /verif
+cd "$(dirname "$0")/.."; mkdir -p .work
 for id in $(python3 -c "import json;print(' '.join(c['property_id'] for c in json.load(open('MANIFEST.json'))['checks']))"); do
   s=$(date +%s)
   VERIF_SEED=$seed /venv/bin/python -m vlib.run $id --tier $tier > .work/runall_$id.log 2>&1; rc=$?
